@@ -164,13 +164,22 @@ def work(args):
     for case in chunk:
         try:
             lines, outs, var, cf = run_impl(prop, case)
-            fails = judge(prop, case, outs, var, cf)
         except CaseTimeout:
             res["hist"]["skipped:case-timeout"] = res["hist"].get("skipped:case-timeout", 0) + 1
             continue
         except Exception:
             res["internal"].append({"case": case, "trace": traceback.format_exc()})
             continue
+        try:
+            fails = judge(prop, case, outs, var, cf)
+        except Exception:
+            # the oracle could not even read the implementation's answers: an answer of an unexpected shape.  It is a failure
+            # of the implementation if the oracle reads the MODEL's answers to the same lines without trouble (decided below);
+            # if it trips over those too, the oracle is at fault (internal error, never a verdict)
+            fails = [{"clause": pid + ".unexpected_output", "detail": {"oracle_trace": traceback.format_exc()[-700:]}}]
+            if not use_model:
+                res["internal"].append({"case": case, "trace": traceback.format_exc()})
+                continue
         res["n"] += 1
         src = case.get("src", "?")
         res["hist"][src] = res["hist"].get(src, 0) + 1
@@ -238,6 +247,9 @@ def work(args):
                     mf = [] if any(skipped(l) for l in lines) else judge(prop, case, mo, mvar)
                 except Exception:
                     mf = [{"clause": "model-judge-crash", "detail": traceback.format_exc()[-400:]}]
+                if any(f["clause"].endswith(".unexpected_output") for f in fails) and any(f.get("clause") == "model-judge-crash" for f in mf):
+                    res["internal"].append({"case": case, "trace": "oracle crashed on implementation AND model outputs: " + str(fails[0]["detail"])})
+                    continue
                 fails_tagged = []
                 for f in fails:
                     f = dict(f); f["agrees_with_model"] = not dis
